@@ -24,6 +24,7 @@ EXPLANATION = (
     'random engine and its guard object have thread storage, the engine is seeded from a non-static seed built from '
     'std::random_device in the same call; the runtime-context stack has thread storage.')
 EXPLANATION += ' C05.R2 also checks the atoms of the table: trace::IsRootSpan / trace::GetSpan return the value stored under their key (behind holds_alternative) or the default.'
+EXPLANATION += ' C05.R6 (forwarding): every inline StartSpan overload of the API Tracer forwards each of its parameters (name, attributes, links, options) to the overload it delegates to; evaluated on a driver unit that instantiates the six overloads.'
 NOT_DECIDED = 'freshness / non-zero ids (the generator has no retry: probabilistic), uniqueness across threads beyond the storage facts.'
 
 P = 'P'   # parent's bit
